@@ -8,22 +8,25 @@ Inductive case :=
 | CPamlWrite (w : Z) (recs : list rec)
 | CGdeWrite (w : Z) (recs : list rec)
 | CParse (which : Z) (text : str)                (* 0 fasta strict | 1 fasta non-strict | 2 fasta bytes |
-                                                    3 gde strict | 4 gde non-strict | 5 phylip | 6 paml *)
+                                                    3 gde strict | 4 gde non-strict | 5 phylip | 6 paml |
+                                                    7 fasta bytes, source variant "split on newline+'>'" *)
 | CSplit (text : str)                            (* text.splitlines() *)
 | CIter (n : Z) (text : str)                     (* iter_splitlines(path, chunk_size=n) *)
-| CRound (fmt : Z) (w : Z) (recs : list rec).    (* parser_of_loader(writer(recs)) : 0 fasta | 1 phylip | 2 paml | 3 gde *)
+| CRound (fmt : Z) (w : Z) (recs : list rec).    (* parser_of_loader(writer(recs)) : 0 fasta | 1 phylip | 2 paml | 3 gde |
+                                                    4 fasta with the bytes parser variant 7 *)
 
 Definition vrec (r : rec) : val := VL [VS (fst r); VS (snd r)].
 Definition vrecs (l : list rec) : val := VL (map vrec l).
 Definition vpres (p : pres) : val := match p with POk l => vrecs l | PErr c => VE c end.
 
 Definition parse_text (which : Z) (text : str) : val :=
-  if which =? 0 then vpres (strict_parser fasta_lc (py_splitlines text))
-  else if which =? 1 then vrecs (faster_parser fasta_lc (py_splitlines text))
+  if which =? 0 then vpres (minimal_parser true fasta_lc (py_splitlines text))
+  else if which =? 1 then vpres (minimal_parser false fasta_lc (py_splitlines text))
   else if which =? 2 then vrecs (bytes_parser text)
-  else if which =? 3 then vpres (strict_parser gde_lc (py_splitlines text))
-  else if which =? 4 then vrecs (faster_parser gde_lc (py_splitlines text))
+  else if which =? 3 then vpres (minimal_parser true gde_lc (py_splitlines text))
+  else if which =? 4 then vpres (minimal_parser false gde_lc (py_splitlines text))
   else if which =? 5 then match phylip_parser (py_splitlines text) with Some p => vpres p | None => VN end
+  else if which =? 7 then vrecs (bytes_parser_fixed text)
   else vpres (paml_parser (py_splitlines text)).
 
 Definition run_case (c : case) : val :=
@@ -40,6 +43,7 @@ Definition run_case (c : case) : val :=
       if w <=? 0 then VE 2 else
       let wn := Z.to_nat w in
       if fmt =? 0 then parse_text 2 (fasta_write_w wn recs)
+      else if fmt =? 4 then parse_text 7 (fasta_write_w wn recs)
       else if fmt =? 1 then parse_text 5 (phylip_write wn recs)
       else if fmt =? 2 then parse_text 6 (paml_write wn recs)
       else parse_text 3 (gde_write wn recs)
